@@ -85,7 +85,7 @@ class C02:
     prop = "C02"
     level = "fault_enumeration"
     design_ref = "DESIGN.md 3.2"
-    tiers = {"quick": {"runs": 64, "budget_s": 75, "chunk": 1, "twice_every": 8, "shrink_s": 60},
+    tiers = {"quick": {"runs": 144, "budget_s": 85, "chunk": 1, "twice_every": 8, "shrink_s": 60},
              "thorough": {"runs": 4000, "budget_s": 840, "chunk": 1, "twice_every": 16, "shrink_s": 180}}
     rule = ("one evaluation = one (experiment, configuration, schedule) whose finished transaction log F (plain or .gz, written by "
             "simulated workers so the record order is schedule dependent) is cut at crash offsets n and resumed by a freshly built "
